@@ -20,12 +20,16 @@ import re
 import vlib
 
 FAMILY = "chain"
-SWITCHES = ["DropReopenedWindow", "InvalidateCacheOnReorg", "SnapshotValidated"]
+SWITCHES = ["DropReopenedWindow", "InvalidateCacheOnReorg", "SnapshotConsumedOnLoad"]
 # per switch: invariant that exports the counterexample, graceful stops needed, key the engine reports
+#             and the signatures of the first divergence that show the tree is REPAIRED for it
 CEX = {
-    "DropReopenedWindow": ("CexBlocked", 0, "event-index:store-rejected-after-reorg-across-window-then-crash"),
-    "InvalidateCacheOnReorg": ("CexQuery", 0, "event-index:stale-cache-after-reorg-across-window"),
-    "SnapshotValidated": ("CexQuery", 1, "event-index:stale-snapshot-after-reorg-then-crash"),
+    "DropReopenedWindow": ("CexBlocked", 0, "event-index:store-rejected-after-reorg-across-window-then-crash",
+                           ("event-index:conformance:Revert:persisted-missing",)),
+    "InvalidateCacheOnReorg": ("CexQuery", 0, "event-index:stale-cache-after-reorg-across-window",
+                               ("model-mismatch:defect-not-in-code:cache",)),
+    "SnapshotConsumedOnLoad": ("CexQuery", 1, "event-index:stale-snapshot-after-reorg-then-crash",
+                               ("model-mismatch:defect-not-in-code:snapshot", ":snapshot-presence")),
 }
 
 
@@ -34,7 +38,7 @@ def _read(name):
         return f.read()
 
 
-def _render(text, consts=None, invariant=None):
+def _render(text, consts=None, invariant=None, properties=None):
     for k, v in (consts or {}).items():
         if isinstance(v, bool):
             v = "TRUE" if v else "FALSE"
@@ -43,7 +47,21 @@ def _render(text, consts=None, invariant=None):
             raise vlib.Broken("cfg template has no constant %s" % k)
     if invariant:
         text = re.sub(r"(?m)^INVARIANTS.*$", "INVARIANTS " + invariant, text)
+    if properties:
+        text = re.sub(r"(?m)^PROPERTIES.*$", "PROPERTIES " + properties, text)
     return text
+
+
+_COV = re.compile(r"(?m)^<(\w+) line \d+, col \d+ to line \d+, col \d+ of module Events(?: \([\d ]+\))?>: (\d+):(\d+)")
+
+
+def _require_covered(res, actions):
+    """vacuity guard: every action of the exhaustive run generated successor states"""
+    taken = {m.group(1): int(m.group(3)) for m in _COV.finditer(res["out"])}
+    zero = [a for a in actions if taken.get(a, 0) == 0]
+    if zero:
+        raise vlib.Broken("vacuity: actions never taken in %s: %s (coverage seen: %s)" % (res["label"], zero, taken))
+    return taken
 
 
 def _cex_from(out):
@@ -75,8 +93,20 @@ def run(ctx):
     ctx.tlc_check(FAMILY, "MCEvents.tla", "Events_paging.cfg", timeout=900)
     if thorough:
         r = ctx.tlc_check(FAMILY, "MCEvents.tla", "Events_thorough.cfg", timeout=1500, coverage=True)
-        vlib.require_actions_covered(r)
+        ctx.coverage["action_coverage_thorough"] = _require_covered(r, ("Store", "Revert", "Restart", "Next"))  # Next = Query
         ctx.tlc_check(FAMILY, "MCEvents.tla", "Events_paging_thorough.cfg", timeout=1500)
+        # the model of the code as it is: every false negative it can produce has one of the three
+        # known causes, and each switch alone only produces its own (soundness of the keys)
+        blame = _read("Events_blame.cfg")
+        ctx.tlc_check(FAMILY, "MCEvents.tla", "Events_blame.cfg", timeout=1500)
+        for sw, prop in (("InvalidateCacheOnReorg", "OnlyCacheToBlame"),
+                         ("SnapshotConsumedOnLoad", "OnlySnapshotToBlame"),
+                         ("DropReopenedWindow", "OnlyPersistedToBlame")):
+            consts = {x: True for x in SWITCHES}
+            consts[sw] = False
+            ctx.tlc_check(FAMILY, "MCEvents.tla", "Events_blame_run.cfg", timeout=1500,
+                          files={"Events_blame_run.cfg": _render(blame, consts, properties=prop)},
+                          label="blame:%s=FALSE/%s" % (sw, prop))
 
     # ---- (ii) which defects does the tree under test have? minimal counterexample of each
     #      faithful switch, replayed on the real code
@@ -84,7 +114,7 @@ def run(ctx):
     state = {s: True for s in SWITCHES}      # not yet calibrated = repaired
     confirmed = []                            # behaviours that reproduce a defect on the real code
     for sw in SWITCHES:
-        inv, graceful, key = CEX[sw]
+        inv, graceful, key, repaired_sigs = CEX[sw]
         consts = dict(state)
         consts[sw] = False
         consts["MaxGraceful"] = graceful
@@ -100,11 +130,30 @@ def run(ctx):
                              timeout=900)
         cal = res.get("stats", {}).get("calibration", [{}])[0]
         present = bool(cal.get("conform")) and key in (cal.get("defects") or [])
-        state[sw] = not present
+        fkey = cal.get("first_divergence_key") or ""
+        repaired = (not present) and any(fkey == sig or fkey.endswith(sig) for sig in repaired_sigs)
+        # neither: the tree differs from BOTH variants of the model somewhere else; keep the
+        # faithful switch, the replay below reports that difference as a divergence
+        state[sw] = repaired
         vlib.log("calibration %s: minimal counterexample (%d steps) %s on the real code -> %s = %s" % (
-            sw, len(beh), "REPRODUCES" if present else "does not reproduce", sw, "FALSE" if present else "TRUE"))
+            sw, len(beh), "REPRODUCES" if present else (
+                "does not reproduce (repaired: %s)" % fkey if repaired else "INCONCLUSIVE (first divergence: %s)" % fkey),
+            sw, "TRUE" if repaired else "FALSE"))
         if present:
             confirmed.append(beh)
+    if not state["DropReopenedWindow"]:
+        # the same root cause also yields false negatives (not only a refused Store): export that
+        # minimal history too so that it is reported under its own key in every run
+        consts = dict(state, MaxGraceful=0)
+        consts["InvalidateCacheOnReorg"] = True
+        consts["SnapshotConsumedOnLoad"] = True
+        r = ctx.tlc_check(FAMILY, "MCEvents.tla", "Events_cex_run.cfg", workers=1, timeout=600,
+                          expect_violation=True, files={"Events_cex_run.cfg": _render(cex_tpl, consts, "CexQuery")},
+                          label="cex:DropReopenedWindow=FALSE/query")
+        beh = _cex_from(r["out"]) if not r["ok"] else None
+        if not beh:
+            raise vlib.Broken("no false-negative counterexample for DropReopenedWindow = FALSE")
+        confirmed.append(beh)
     ctx.coverage["switches_describing_the_tree"] = {k: ("TRUE" if v else "FALSE") for k, v in state.items()}
 
     # ---- (iii) behaviours of the model that describes the tree, replayed on the real node
